@@ -1,22 +1,11 @@
-use std::io::Read;
-use pgp::armor::{self, BlockType, Dearmor};
-use std::collections::BTreeMap;
-struct Src(Vec<u8>);
-impl pgp::ser::Serialize for Src {
-    fn to_writer<W: std::io::Write>(&self, w: &mut W) -> pgp::errors::Result<()> { w.write_all(&self.0)?; Ok(()) }
-    fn write_len(&self) -> usize { self.0.len() }
-}
+use pgp::composed::{ArmorOptions, CleartextSignedMessage, KeyType};
+use pgp::types::{KeyVersion, Password};
+use vh::keys::gen_key;
+use vh::Rng;
 fn main() {
-    let vals = ["", "x", "GnuPG v2", "foo: bar", "ends with colon:", ":", " lead", "h\u{e9}llo", "a  b ", "https://example.org/x?y=1", "-----"];
-    let keys = ["Version", "X-a:b", "Key With Space"];
-    for k in keys { for v in vals {
-        let mut h: BTreeMap<String, Vec<String>> = BTreeMap::new();
-        h.insert(k.into(), vec![v.into()]);
-        let mut out = Vec::new();
-        armor::write(&Src(b"hello".to_vec()), BlockType::Message, &mut out, Some(&h), true).unwrap();
-        let mut d = Dearmor::new(&out[..]);
-        let mut data = Vec::new();
-        let r = d.read_to_end(&mut data);
-        println!("{:?} {:?} -> {:?} {:?}", k, v, r.map_err(|e| e.to_string()), d.headers);
-    }}
+    let real = gen_key(KeyVersion::V4, KeyType::Ed25519Legacy, 16);
+    let msg = CleartextSignedMessage::sign(Rng::new(5), "hello\n", &*real, &Password::empty()).unwrap();
+    let arm = msg.to_armored_string(ArmorOptions::default()).unwrap();
+    println!("{arm}");
+    println!("{:?}", CleartextSignedMessage::from_string(&arm).map(|(m, _)| m.text().to_string()).map_err(|e| e.to_string()));
 }
